@@ -1291,11 +1291,17 @@ func genEndpoint(r *rand.Rand) JV {
 			o.O = append(o.O, f("port", ji(int64(r.Intn(3))*4040)))
 		}
 	}
+	if !strictEndpoints && r.Intn(10) == 0 { // a repeated member inside the endpoint: the write path takes the last serviceName, the read path the first
+		o.O = append(o.O, f("serviceName", js(pick(r, []string{"other", "", "db"}))))
+	}
 	if r.Intn(2) == 0 {
 		r.Shuffle(len(o.O), func(i, j int) { o.O[i], o.O[j] = o.O[j], o.O[i] })
 	}
 	return o
 }
+
+// strictEndpoints: set while a span of the strict classes (no repeated member names anywhere) is generated
+var strictEndpoints bool
 
 // annotations: mostly proper {"timestamp": microseconds, "value": text} objects; otherwise (not strict) the forms the read path
 // answers with no event or a changed one: timestamp 0 / a string / a fraction / beyond uint64 nanoseconds, a missing or non-string value,
@@ -1359,6 +1365,7 @@ func genTime(r *rand.Rand, base int64) JV {
 
 // malformed: 0 none; otherwise one defect is injected
 func genZSpan(r *rand.Rand, malformed bool, strict bool) JV {
+	strictEndpoints = strict
 	fs := []JKV{}
 	tl := 32
 	if !strict {
